@@ -29,6 +29,25 @@ class NameTranslationError(Exception):
     pass
 
 
+def _isExisting(fullName, existing):
+    """Return True if fullName is, ignoring case, one of the existing names
+    (which the callers pass lower-cased with str.lower()).
+
+    str.lower() is context dependent for GREEK CAPITAL LETTER SIGMA: it gives
+    the final form "\u03c2" at the end of a word and "\u03c3" elsewhere, so that
+    "a\u03a3_".lower() != "a\u03c3_".lower() although both names are the same file on
+    a case-insensitive file system. Names with a sigma are therefore compared
+    with the two lower-case forms unified.
+    """
+    lowered = fullName.lower()
+    if lowered in existing:
+        return True
+    if "\u03c3" in lowered or "\u03c2" in lowered:
+        key = lowered.replace("\u03c2", "\u03c3")
+        return any(name.replace("\u03c2", "\u03c3") == key for name in existing)
+    return False
+
+
 def userNameToFileName(userName, existing=[], prefix="", suffix=""):
     """Converts from a user name to a file name.
 
@@ -133,7 +152,7 @@ def userNameToFileName(userName, existing=[], prefix="", suffix=""):
             break
     # test for clash
     fullName = prefix + userName + suffix
-    if fullName.lower() in existing:
+    if _isExisting(fullName, existing):
         fullName = handleClash1(userName, existing, prefix, suffix)
     # finished
     return fullName
@@ -182,7 +201,7 @@ def handleClash1(userName, existing=[], prefix="", suffix=""):
     while finalName is None:
         name = userName + str(counter).zfill(15)
         fullName = prefix + name + suffix
-        if fullName.lower() not in existing:
+        if not _isExisting(fullName, existing):
             finalName = fullName
             break
         else:
@@ -230,7 +249,7 @@ def handleClash2(existing=[], prefix="", suffix=""):
     counter = 1
     while finalName is None:
         fullName = prefix + str(counter) + suffix
-        if fullName.lower() not in existing:
+        if not _isExisting(fullName, existing):
             finalName = fullName
             break
         else:
